@@ -398,3 +398,114 @@ Proof.
   - rewrite chain_value_get by assumption. rewrite B. reflexivity.
   - exact B.
 Qed.
+
+(* ---- defaults derived from the receiving interface ------------------------- *)
+Lemma base_sub_chain g req conf l :
+  prefixes_ok l = true ->
+  first_chain req (flat_map (default_subpolicy g req conf) l) =
+  match receiving_prefix (r_serverip req) l with
+  | Some (net, len) => default_subpolicy g req conf (P4 net len)
+  | None => []
+  end
+  /\ match receiving_prefix (r_serverip req) l with
+     | Some (net, len) => N.land net (netmask len) = net /\ prefix_contains net len (r_serverip req) = true
+     | None => True
+     end.
+Proof.
+  unfold first_chain. induction l as [|[net len|] r IH]; intros Hok; [split; [reflexivity|exact I]| |].
+  - simpl in Hok. apply Bool.andb_true_iff in Hok. destruct Hok as [Hp Hr].
+    unfold prefix_ok in Hp. apply Bool.andb_true_iff in Hp. destruct Hp as [Hp _].
+    apply Bool.andb_true_iff in Hp. destruct Hp as [_ Hal]. apply N.eqb_eq in Hal.
+    simpl flat_map. simpl receiving_prefix. cbn [app selected].
+    rewrite matches_unfold. cbn [conds p_all p_chaddr p_subnet p_match app map forallb holds snd fst].
+    rewrite Hal, Bool.andb_true_r.
+    destruct (N.land (r_serverip req) (netmask len) =? net) eqn:E.
+    + rewrite selected_in_unfold. cbn [p_kids first_chain selected]. unfold default_subpolicy.
+      split; [rewrite Hal; reflexivity|]. split; [exact Hal|]. unfold prefix_contains. exact E.
+    + apply IH. exact Hr.
+  - simpl in Hok. simpl flat_map. simpl receiving_prefix. apply IH. exact Hok.
+Qed.
+
+Lemma interface_defaults g req init k :
+  wf_cfg g = true -> requested req k = true -> tget k init = None ->
+  k = 26 \/ k = 3 \/ ((k = 1 \/ k = 28) /\ receiving_prefix (r_serverip req) (g_addresses g) <> None) ->
+  tget k (rs_opts (snd (policy_walk g req init))) =
+  chain_value k (match selected req (conf_policies g) with Some ch => ch | None => [] end)
+    (interface_default g req k).
+Proof.
+  intros Hwf Hr Hi Hk. unfold wf_cfg in Hwf. apply Bool.andb_true_iff in Hwf. destruct Hwf as [Hpre _].
+  unfold policy_walk. rewrite (walk_is_spec req [build_default g req (conf_policies g)]).
+  cbn [selected]. rewrite base_matches, selected_in_unfold, walk_is_spec.
+  cbn [p_kids build_default].
+  destruct (base_sub_chain g req (conf_policies g) (g_addresses g) Hpre) as [Hsub Hal].
+  rewrite Hsub. unfold interface_default.
+  set (r0 := {| rs_opts := init; rs_addr := None |}).
+  set (base := build_default g req (conf_policies g)).
+  assert (Hbase : forall k', k' <> 6 -> k' <> 119 -> k' <> 114 -> last_for k' (p_apply base) = None).
+  { intros k' A B C. apply last_for_none. subst base. unfold build_default, OPTION_DOMAINSERVER, OPTION_DOMAINSEARCH, OPTION_CAPTIVEPORTAL.
+    cbn [p_apply]. intros e Hin. simpl in Hin.
+    repeat (destruct Hin as [Hin|Hin]; [subst e; simpl; intros Hx; symmetry in Hx; contradiction|]); contradiction. }
+  assert (Hk6 : k <> 6 /\ k <> 119 /\ k <> 114).
+  { destruct Hk as [->|[->|[[->| ->] _]]]; repeat split; discriminate. }
+  destruct Hk6 as [K6 [K119 K114]].
+  (* value after the base chain *)
+  assert (B : tget k (rs_opts (apply_chain req
+                (base :: match receiving_prefix (r_serverip req) (g_addresses g) with
+                         | Some (net, len) => default_subpolicy g req (conf_policies g) (P4 net len)
+                         | None => [] end) r0)) =
+              match receiving_prefix (r_serverip req) (g_addresses g) with
+              | Some (net, len) =>
+                if k =? 1 then Some (Some (be32 (netmask len)))
+                else if k =? 28 then Some (Some (be32 (N.lor net (U32MAX - netmask len))))
+                else if k =? 26 then option_map (fun m => Some (be16 (m mod 65536))) (r_mtu req)
+                else if k =? 3 then option_map (fun r => Some (be32 r)) (r_router req)
+                else None
+              | None => None
+              end).
+  { destruct (receiving_prefix (r_serverip req) (g_addresses g)) as [[net len]|].
+    - destruct Hal as [Hal Hc].
+      destruct Hk as [->|[->|[[->| ->] _]]].
+      + (* 26 *) rewrite chain_value_get by (assumption || discriminate).
+        cbn [chain_value]. rewrite Hbase by discriminate. subst r0. cbn [rs_opts]. rewrite Hi.
+        unfold default_subpolicy. cbn [chain_value p_apply]. rewrite Hc.
+        unfold last_for, OPTION_MTUIF, OPTION_ROUTERADDR. destruct (r_mtu req), (r_router req); reflexivity.
+      + (* 3 *) rewrite chain_value_get by (assumption || discriminate).
+        cbn [chain_value]. rewrite Hbase by discriminate. subst r0. cbn [rs_opts]. rewrite Hi.
+        unfold default_subpolicy. cbn [chain_value p_apply]. rewrite Hc.
+        unfold last_for, OPTION_MTUIF, OPTION_ROUTERADDR. destruct (r_mtu req), (r_router req); reflexivity.
+      + (* 1 *) unfold default_subpolicy. cbn [apply_chain rs_opts rs_addr].
+        assert (S0 : forall t, subnet_opts req base t = t) by (intros t; reflexivity).
+        rewrite S0.
+        rewrite (subnet_opts_sets_netmask req _ (N.land net (netmask len), len)); [reflexivity|reflexivity|exact Hr|].
+        rewrite apply_own_get, Hr. rewrite last_for_none.
+        * rewrite apply_own_get, Hr, Hbase by discriminate. exact Hi.
+        * cbn [p_apply]. unfold OPTION_MTUIF, OPTION_ROUTERADDR. intros e Hin.
+          destruct (prefix_contains net len (r_serverip req)), (r_mtu req), (r_router req); simpl in Hin;
+            repeat (destruct Hin as [Hin|Hin]; [subst e; simpl; discriminate|]); contradiction.
+      + (* 28 *) unfold default_subpolicy. cbn [apply_chain rs_opts rs_addr].
+        assert (S0 : forall t, subnet_opts req base t = t) by (intros t; reflexivity).
+        rewrite S0.
+        rewrite (subnet_opts_sets_broadcast req _ (N.land net (netmask len), len)); [|reflexivity|exact Hr|].
+        * unfold subnet_broadcast, subnet_network. cbn [fst snd]. rewrite !Hal. reflexivity.
+        * rewrite apply_own_get, Hr. rewrite last_for_none.
+          -- rewrite apply_own_get, Hr, Hbase by discriminate. exact Hi.
+          -- cbn [p_apply]. unfold OPTION_MTUIF, OPTION_ROUTERADDR. intros e Hin.
+             destruct (prefix_contains net len (r_serverip req)), (r_mtu req), (r_router req); simpl in Hin;
+               repeat (destruct Hin as [Hin|Hin]; [subst e; simpl; discriminate|]); contradiction.
+    - destruct Hk as [->|[->|[_ Hx]]]; [| |congruence].
+      + rewrite chain_value_get by (assumption || discriminate). cbn [chain_value].
+        rewrite Hbase by discriminate. exact Hi.
+      + rewrite chain_value_get by (assumption || discriminate). cbn [chain_value].
+        rewrite Hbase by discriminate. exact Hi. }
+  (* the dhcp-policies chain on top of it *)
+  set (r1 := apply_chain req _ r0) in *.
+  destruct (selected req (conf_policies g)) as [ch|]; cbn [snd]; [|exact B].
+  destruct (tget k (rs_opts r1)) as [v|] eqn:T.
+  - rewrite (chain_value_get_present req k ch Hr r1 v T). rewrite <- B. reflexivity.
+  - (* nothing there yet: only possible for 26 / 3 *)
+    destruct Hk as [->|[->|[[->| ->] Hx]]].
+    + rewrite chain_value_get by (assumption || discriminate). rewrite T, <- B. reflexivity.
+    + rewrite chain_value_get by (assumption || discriminate). rewrite T, <- B. reflexivity.
+    + destruct (receiving_prefix (r_serverip req) (g_addresses g)) as [[net len]|]; [discriminate B|congruence].
+    + destruct (receiving_prefix (r_serverip req) (g_addresses g)) as [[net len]|]; [discriminate B|congruence].
+Qed.
